@@ -54,7 +54,14 @@ type Frag struct {
 	Between []int   // boxes written by the caller after this fragment
 }
 
+// SidxSpec: a sidx box placed after the styp box (or first): FirstOffset and (ReferenceType, ReferencedSize) pairs
+type SidxSpec struct {
+	First uint64
+	Refs  [][2]uint32
+}
+
 type Seg struct {
+	Sidx    []SidxSpec
 	NTracks int
 	Trex    [][3]uint32 // per init track: default duration, size, flags
 	Styp    bool
@@ -65,6 +72,7 @@ type Seg struct {
 	Dec     int  // 0 DecodeFile(init+seg) 1 DecodeFileSR(init+seg) 2 DecodeFile(seg) 3 DecodeFileSR(seg)
 	NoDec   bool // probe: stop after the data-offset oracle (payload too big to materialise)
 	Bad     bool // some Sample.Size differs from its data length (the decode stage is then not compared)
+	noCross bool // internal: do not run the encoder/decoder cross-check again
 }
 
 // mixSeed spreads seeds over the 64-bit space (hx.NewRng streams of nearby seeds are shifted copies of each other)
@@ -106,6 +114,14 @@ func mkBox(code int) mp4.Box {
 		fb.Name = "skip"
 		return fb
 	}
+}
+
+func mkSidx(sp SidxSpec) *mp4.SidxBox {
+	sx := &mp4.SidxBox{ReferenceID: 1, Timescale: 1000, FirstOffset: sp.First}
+	for _, rf := range sp.Refs {
+		sx.SidxRefs = append(sx.SidxRefs, mp4.SidxRef{ReferenceType: uint8(rf[0] & 1), ReferencedSize: rf[1] & 0x7fffffff, SubSegmentDuration: 100})
+	}
+	return sx
 }
 
 func sumSizes(codes []int) uint64 {
@@ -464,7 +480,7 @@ func genSeg(r *hx.Rng, wild bool) *Seg {
 	for i := range tg {
 		tg[i] = newTrackGen(r)
 	}
-	nfr := r.Pick(1, 1, 1, 2, 2, 3)
+	nfr := r.Pick(1, 1, 1, 2, 2, 3, 3, 4, 5, 6)
 	anyLazy, anyBetween := false, false
 	for k := 0; k < nfr; k++ {
 		fr := Frag{Seq: uint32(k + 1)}
@@ -582,7 +598,52 @@ func genSeg(r *hx.Rng, wild bool) *Seg {
 		sg.Frags = append(sg.Frags, fr)
 	}
 	sg.UseSeg = !anyLazy && !anyBetween && r.Bool()
+	genSidx(r, sg, wild)
 	return sg
+}
+
+// genSidx adds sidx boxes to a segment spec: "truthful" ones (one reference per fragment with its byte length, measured
+// by running the spec once without sidx; optionally preceded by a second sidx whose FirstOffset skips the first),
+// and for wild specs also sidx boxes with arbitrary offsets and references (including reference type 1).
+// Without a styp box the File collects them and startSegmentIfNeeded splits the stream into segments by position.
+func genSidx(r *hx.Rng, sg *Seg, wild bool) {
+	switch r.Intn(6) {
+	case 0:
+		sr := runSeg(sg)
+		if len(sr.encCls) != len(sg.Frags) || len(sr.fragPos) != len(sg.Frags) {
+			return
+		}
+		for _, c := range sr.encCls {
+			if c != 'o' {
+				return
+			}
+		}
+		end := uint64(sr.initLen + len(sr.segBytes))
+		var refs [][2]uint32
+		for i := range sg.Frags {
+			nx := end
+			if i+1 < len(sg.Frags) {
+				nx = sr.fragPos[i+1]
+			}
+			refs = append(refs, [2]uint32{0, uint32(nx - sr.fragPos[i])})
+		}
+		if r.Bool() {
+			sg.Sidx = []SidxSpec{{First: 0, Refs: refs}}
+		} else {
+			sg.Sidx = []SidxSpec{{First: uint64(32 + 12*len(refs)), Refs: [][2]uint32{{1, 77}}}, {First: 0, Refs: refs}}
+		}
+	case 1:
+		if !wild {
+			return
+		}
+		for k := r.Range(1, 2); k > 0; k-- {
+			sp := SidxSpec{First: uint64(r.Pick(0, 0, 8, 100))}
+			for j := r.Intn(4); j > 0; j-- {
+				sp.Refs = append(sp.Refs, [2]uint32{uint32(r.Pick(0, 0, 0, 1)), uint32(r.Pick(0, 8, 16, 100, 124, 132, 200))})
+			}
+			sg.Sidx = append(sg.Sidx, sp)
+		}
+	}
 }
 
 // ------------------------------------------------------------------ running a whole segment
@@ -607,6 +668,9 @@ func runSeg(sg *Seg) *segRun {
 	var body bytes.Buffer
 	if sg.Styp {
 		_ = mp4.CreateStyp().Encode(&body)
+	}
+	for _, sp := range sg.Sidx {
+		_ = mkSidx(sp).Encode(&body)
 	}
 	for i := range sg.Frags {
 		sr.runs = append(sr.runs, buildFrag(&sg.Frags[i]))
@@ -635,6 +699,9 @@ func runSeg(sg *Seg) *segRun {
 			ms = mp4.NewMediaSegmentWithoutStyp()
 		}
 		pos := uint64(base + body.Len())
+		for _, sp := range sg.Sidx {
+			ms.AddSidx(mkSidx(sp))
+		}
 		for _, r := range sr.runs {
 			ms.AddFragment(r.f)
 			sr.fragPos = append(sr.fragPos, pos)
@@ -840,6 +907,48 @@ func checkSeg(sg *Seg) *failure {
 	if len(dfs) != len(sg.Frags) {
 		return &failure{"DecodeFile", "fragment-count", fmt.Sprintf("%d fragments written, %d decoded", len(sg.Frags), len(dfs))}
 	}
+	// DecodeFile regroups the stream into the fragments that were written: every moof is found at the position where
+	// the harness wrote it (the position its data offsets are relative to), every mdat right behind it
+	for i, df := range dfs {
+		want := sr.fragPos[i] + sr.runs[i].pre
+		if df.Moof == nil || df.Mdat == nil {
+			return &failure{"DecodeFile", "fragment-incomplete", fmt.Sprintf("decoded fragment %d has no moof or no mdat", i)}
+		}
+		if df.Moof.StartPos != want {
+			return &failure{"DecodeFile", "moof-position", fmt.Sprintf("fragment %d: moof written at %d, Moof.StartPos %d", i, want, df.Moof.StartPos)}
+		}
+		if got := df.Mdat.PayloadAbsoluteOffset(); got != want+df.Moof.Size()+df.Mdat.HeaderSize() {
+			return &failure{"DecodeFile", "mdat-position", fmt.Sprintf("fragment %d: mdat payload at %d, moof at %d with size %d", i, got, want, df.Moof.Size())}
+		}
+	}
+	// the other encoder writes the same bytes, the other decoder recovers the same fragments (every 4th spec)
+	if !sg.noCross && len(sr.segBytes)%4 == 0 {
+		c := cloneSeg(sg)
+		c.SW = !sg.SW
+		c.noCross = true
+		sr2 := runSeg(c)
+		if !bytes.Equal(sr2.segBytes, sr.segBytes) {
+			return &failure{"MediaSegment.Encode", "encoder-difference", fmt.Sprintf("Encode and EncodeSW write different bytes (%d vs %d)", len(sr.segBytes), len(sr2.segBytes))}
+		}
+		f2, c2 := decodeAll(sr.bytes, sg.Dec%2 == 0)
+		if c2 != 'o' {
+			return &failure{"DecodeFile", "decoder-difference", "the other decoder fails on the same bytes"}
+		}
+		var dfs2 []*mp4.Fragment
+		for _, s := range f2.Segments {
+			dfs2 = append(dfs2, s.Fragments...)
+		}
+		if len(dfs2) != len(dfs) {
+			return &failure{"DecodeFile", "decoder-difference", fmt.Sprintf("%d vs %d fragments", len(dfs), len(dfs2))}
+		}
+		for i := range dfs {
+			g1, c1 := getFull(dfs[i], nil)
+			g2, c2 := getFull(dfs2[i], nil)
+			if c1 != c2 || hfl(g1) != hfl(g2) || dfs2[i].Moof.StartPos != dfs[i].Moof.StartPos {
+				return &failure{"DecodeFile", "decoder-difference", fmt.Sprintf("fragment %d differs between DecodeFile and DecodeFileSR", i)}
+			}
+		}
+	}
 	for t := 1; t <= sg.NTracks; t++ {
 		var want, got []mp4.FullSample
 		for i, df := range dfs {
@@ -900,6 +1009,13 @@ func shrink(sg *Seg, f *failure) *Seg {
 	cur := sg
 	for changed := true; changed; {
 		changed = false
+		if len(cur.Sidx) > 0 {
+			c := cloneSeg(cur)
+			c.Sidx = nil
+			if same(c) {
+				cur, changed = c, true
+			}
+		}
 		for i := 0; i < len(cur.Frags) && len(cur.Frags) > 1; i++ {
 			c := cloneSeg(cur)
 			c.Frags = append(c.Frags[:i], c.Frags[i+1:]...)
@@ -1466,6 +1582,300 @@ func emitH(id string, sg *Seg, sr *segRun, i int, stats map[string]int) {
 	fmt.Fprintf(out, "H\t%s\t%s\t%s\t%s\n", id, cfg, opss, sb.String())
 }
 
+// ------------------------------------------------------------------ corr: G cases (one per segment: the box stream)
+
+func xboxOfCode(c int) string {
+	k := "o"
+	if c/100000 == 4 {
+		k = "e"
+	}
+	return k + "." + hx.HexU(mkBox(c).Size()) + ".0.-"
+}
+
+func xboxList(xs []string) string {
+	if len(xs) == 0 {
+		return "-"
+	}
+	return strings.Join(xs, ",")
+}
+
+func codesList(cs []int) string {
+	xs := make([]string, len(cs))
+	for i, c := range cs {
+		xs[i] = xboxOfCode(c)
+	}
+	return xboxList(xs)
+}
+
+// emitG: the whole segment as a stream of top-level boxes (kinds and sizes; moof and mdat are rebuilt by the model from
+// the op histories) and what DecodeFile / DecodeFileSR makes of the real bytes: segments, fragments per segment, the
+// start position of every moof and the payload position of every mdat, and per trex the concatenation of
+// GetFullSamples over the fragments in order.
+func emitG(id string, sg *Seg, sr *segRun, stats map[string]int) {
+	if sg.NoDec || len(sr.encCls) != len(sr.runs) || len(sr.fragPos) != len(sr.runs) || len(sr.fragLen) != len(sr.runs) {
+		return
+	}
+	for i, r := range sr.runs {
+		if r.panicked() || sr.encCls[i] != 'o' {
+			return
+		}
+	}
+	b2s := func(b bool) string {
+		if b {
+			return "1"
+		}
+		return "0"
+	}
+	var head []string
+	if sg.Styp {
+		head = append(head, "s."+hx.HexU(mp4.CreateStyp().Size())+".0.-")
+	}
+	for _, sp := range sg.Sidx {
+		refs := make([]string, len(sp.Refs))
+		for k, rf := range sp.Refs {
+			refs[k] = hx.HexU(uint64(rf[0]&1)) + ":" + hx.HexU(uint64(rf[1]&0x7fffffff))
+		}
+		rs := "-"
+		if len(refs) > 0 {
+			rs = strings.Join(refs, "/")
+		}
+		head = append(head, "x."+hx.HexU(mkSidx(sp).Size())+"."+hx.HexU(sp.First)+"."+rs)
+	}
+	trexs := make([]string, 0, sg.NTracks)
+	for t := 1; t <= sg.NTracks; t++ {
+		trexs = append(trexs, hx.HexU(uint64(sg.Trex[t-1][0]))+"."+hx.HexU(uint64(sg.Trex[t-1][1]))+"."+hx.HexU(uint64(sg.Trex[t-1][2])))
+	}
+	// reading samples back is compared only for segments inside the domain where the model's GetFullSamples is faithful:
+	// one data mode per fragment, sizes consistent with the data (beyond the mdat payload the real code slices
+	// mdat.Data up to its capacity, which the model does not know: it says panic)
+	rd := !sg.Bad
+	for _, rr := range sr.runs {
+		if len(rr.modes) > 1 || (rr.modes['l'] && rr.f.Mdat.GetLazyDataSize() != uint64(len(rr.lazy))) {
+			rd = false
+		}
+	}
+	cfg := fmt.Sprintf("o=%s;f0=%s;p0=%s;rd=%s;head=%s;trex=%s", b2s(sg.Opt), b2s(sg.Dec < 2), hx.HexU(uint64(sr.initLen)), b2s(rd), xboxList(head), strings.Join(trexs, ","))
+	frs := make([]string, len(sg.Frags))
+	framed := make([]byte, len(sg.Frags))
+	allFramed := true
+	for i := range sg.Frags {
+		fs := &sg.Frags[i]
+		r := sr.runs[i]
+		tracks := make([]uint64, len(fs.Tracks))
+		for k, t := range fs.Tracks {
+			tracks[k] = uint64(t)
+		}
+		trafx := make([]uint64, len(fs.TrafX))
+		for k, cs := range fs.TrafX {
+			trafx[k] = sumSizes(cs)
+		}
+		var pre []string
+		if fs.Prft {
+			pre = append(pre, xboxOfCode(300000))
+		}
+		for k := 0; k < fs.Emsg; k++ {
+			pre = append(pre, xboxOfCode(400000+k))
+		}
+		ops := make([]string, len(fs.Ops))
+		for k := range fs.Ops {
+			ops[k] = opString(&fs.Ops[k])
+		}
+		opss := "-"
+		if len(ops) > 0 {
+			opss = strings.Join(ops, ";")
+		}
+		fcfg := fmt.Sprintf("m=%s;t=%s;mx=%s;tx=%s", b2s(fs.Multi), hexCsv(tracks), hx.HexU(sumSizes(fs.MoofX)), hexCsv(trafx))
+		frs[i] = fcfg + "@" + opss + "@" + xboxList(pre) + "@" + codesList(fs.Post) + "@" + codesList(fs.Between)
+		// framing, measured on the real bytes: declared mdat payload length vs the bytes that follow the mdat header
+		// up to the first box after the fragment (boxes after the mdat inside the fragment, then the caller's data)
+		framed[i] = '0'
+		fb := sr.bytes[sr.fragPos[i] : sr.fragPos[i]+uint64(sr.fragLen[i])]
+		pr := int(r.pre)
+		if len(fb) >= pr+8 {
+			moofSize := int(binary.BigEndian.Uint32(fb[pr : pr+4]))
+			mp := pr + moofSize
+			if len(fb) >= mp+8 {
+				hdr := 8
+				declared := uint64(binary.BigEndian.Uint32(fb[mp : mp+4]))
+				if declared == 1 && len(fb) >= mp+16 {
+					hdr = 16
+					declared = binary.BigEndian.Uint64(fb[mp+8 : mp+16])
+				}
+				post := int(sumSizes(fs.Post))
+				actual := uint64(len(fb)-mp-hdr-post) + uint64(len(r.lazy))
+				if declared == uint64(hdr)+actual && (len(r.lazy) == 0 || post == 0) {
+					framed[i] = '1'
+				}
+			}
+		}
+		if framed[i] != '1' {
+			allFramed = false
+		}
+	}
+	var sb strings.Builder
+	sb.WriteString("fr=" + string(framed))
+	stats["G.segments"]++
+	stats["G.frags="+strconv.Itoa(len(sg.Frags))]++
+	if len(sg.Sidx) > 0 {
+		if sg.Styp {
+			stats["G.sidx-in-segment"]++
+		} else {
+			stats["G.sidx-top-level"]++
+		}
+	}
+	if allFramed {
+		stats["G.framed"]++
+		sb.WriteString("|dec=" + string(sr.decCls))
+		if sr.decCls == 'o' && sr.file != nil {
+			sb.WriteString("|segs=")
+			for k, s := range sr.file.Segments {
+				if k > 0 {
+					sb.WriteString(",")
+				}
+				sb.WriteString(b2s(s.Styp != nil) + "." + hx.HexU(uint64(len(s.Fragments))))
+			}
+			if len(sr.file.Segments) > 1 {
+				stats["G.several-segments"]++
+			}
+			dfs := sr.decodedFrags()
+			sb.WriteString("|frags=")
+			for k, df := range dfs {
+				if k > 0 {
+					sb.WriteString(",")
+				}
+				ms, md := "-", "-"
+				if df.Moof != nil {
+					ms = hx.HexU(df.Moof.StartPos)
+				}
+				if df.Mdat != nil {
+					md = hx.HexU(df.Mdat.PayloadAbsoluteOffset())
+				}
+				sb.WriteString(ms + "." + md)
+			}
+			if rd {
+				sb.WriteString("|rd=")
+				stats["G.read-back"]++
+			}
+			for t := 0; rd && t <= sg.NTracks; t++ {
+				var tx *mp4.TrexBox
+				name := "n"
+				if t > 0 {
+					tx = sr.trexs[t]
+					name = hx.HexU(uint64(t))
+				}
+				var all []mp4.FullSample
+				c := byte('o')
+				for _, df := range dfs {
+					var g []mp4.FullSample
+					g, c = getFull(df, tx)
+					if c != 'o' {
+						break
+					}
+					all = append(all, g...)
+				}
+				sb.WriteString(" R" + name + "=" + string(c))
+				if c == 'o' {
+					sb.WriteString(":" + hfl(all))
+				}
+			}
+		}
+	}
+	fmt.Fprintf(out, "G\t%s\t%s\t%s\t%s\n", id, cfg, strings.Join(frs, "#"), sb.String())
+}
+
+// ------------------------------------------------------------------ corr: B cases (malformed box sequences)
+
+// cmdCorrB: arbitrary sequences of top-level boxes (styp, sidx, emsg, free, a fixed moof, mdat) that are mostly NOT of the
+// shape of a segment: mdat without moof, a box between moof and mdat, two moofs, emsg only, styp in the middle.
+// Observables: outcome class of DecodeFile / DecodeFileSR, segments, fragments, positions, and the outcome class of
+// GetFullSamples on every fragment.
+func cmdCorrB(r *hx.Rng, n int, stats map[string]int) {
+	op := Op{K: "F", Tr: 1, Ss: []Smp{{F: 0x1010000, D: 10, S: 2, C: 0}}, Dts: 5, Data: "a1a2"}
+	fr := Frag{Seq: 1, Tracks: []uint32{1}, Ops: []Op{op}, TrafX: [][]int{nil}}
+	run := buildFrag(&fr)
+	fb, c := encodeFrag(run.f, false, false)
+	if c != 'o' {
+		return
+	}
+	moofLen := int(run.f.Moof.Size())
+	moofB := fb[:moofLen]
+	initB := buildInit(&Seg{NTracks: 1, Trex: [][3]uint32{{}}})
+	for i := 0; i < n; i++ {
+		withInit := r.Bool()
+		sr := r.Bool()
+		var body bytes.Buffer
+		var toks []string
+		for k := r.Range(1, 7); k > 0; k-- {
+			switch r.Pick(0, 0, 0, 1, 1, 1, 2, 3, 4, 5) {
+			case 0:
+				body.Write(moofB)
+				toks = append(toks, "m")
+			case 1:
+				pl := r.Pick(2, 2, 5, 3) // never shorter than the sample: beyond len(mdat.Data) the real code slices up to the capacity (model: panic)
+				m := &mp4.MdatBox{Data: genData(pl)}
+				_ = m.Encode(&body)
+				toks = append(toks, "d"+hx.HexU(uint64(pl)))
+			case 2:
+				_ = mp4.CreateStyp().Encode(&body)
+				toks = append(toks, "s."+hx.HexU(mp4.CreateStyp().Size())+".0.-")
+			case 3:
+				sp := SidxSpec{First: uint64(r.Pick(0, 8)), Refs: [][2]uint32{{0, uint32(r.Pick(moofLen+10, moofLen+13, 8))}, {uint32(r.Intn(2)), 8}}}
+				_ = mkSidx(sp).Encode(&body)
+				toks = append(toks, fmt.Sprintf("x.%s.%s.%s:%s/%s:8", hx.HexU(mkSidx(sp).Size()), hx.HexU(sp.First), hx.HexU(uint64(sp.Refs[0][0])), hx.HexU(uint64(sp.Refs[0][1])), hx.HexU(uint64(sp.Refs[1][0]))))
+			case 4:
+				body.Write(encodeBoxes([]int{400003}))
+				toks = append(toks, xboxOfCode(400003))
+			default:
+				body.Write(encodeBoxes([]int{4}))
+				toks = append(toks, xboxOfCode(4))
+			}
+		}
+		data := body.Bytes()
+		p0 := 0
+		if withInit {
+			data = append(append([]byte{}, initB...), data...)
+			p0 = len(initB)
+		}
+		f, dc := decodeAll(data, sr)
+		var sb strings.Builder
+		sb.WriteString("dec=" + string(dc))
+		if dc == 'o' && f != nil {
+			sb.WriteString("|segs=")
+			var dfs []*mp4.Fragment
+			for k, s := range f.Segments {
+				if k > 0 {
+					sb.WriteString(",")
+				}
+				sb.WriteString(fmt.Sprintf("%d.%s", map[bool]int{false: 0, true: 1}[s.Styp != nil], hx.HexU(uint64(len(s.Fragments)))))
+				dfs = append(dfs, s.Fragments...)
+			}
+			sb.WriteString("|frags=")
+			for k, df := range dfs {
+				if k > 0 {
+					sb.WriteString(",")
+				}
+				ms, md := "-", "-"
+				if df.Moof != nil {
+					ms = hx.HexU(df.Moof.StartPos)
+				}
+				if df.Mdat != nil {
+					md = hx.HexU(df.Mdat.PayloadAbsoluteOffset())
+				}
+				_, c1 := getFull(df, nil)
+				_, c2 := getFull(df, &mp4.TrexBox{TrackID: 1})
+				_, c3 := getFull(df, &mp4.TrexBox{TrackID: 2})
+				sb.WriteString(ms + "." + md + "." + string(c1) + string(c2) + string(c3))
+			}
+			stats["B.decoded"]++
+			if len(f.Segments) > 1 {
+				stats["B.several-segments"]++
+			}
+		}
+		stats["B.cases"]++
+		fmt.Fprintf(out, "B\tb%d\tf0=%d;p0=%s\t%s\t%s\t%s\n", i, map[bool]int{false: 0, true: 1}[withInit], hx.HexU(uint64(p0)), opString(&op), strings.Join(toks, ","), sb.String())
+	}
+}
+
 // ------------------------------------------------------------------ corr: D cases (box decoders on mutated boxes)
 
 func trunObs(t *mp4.TrunBox) string {
@@ -1563,6 +1973,7 @@ func cmdCorr(seed uint64, n int, exh int) {
 	stats := map[string]int{}
 	cmdCorrO(hx.NewRng(mixSeed(seed, 0xc05)), n, stats)
 	cmdCorrD(hx.NewRng(mixSeed(seed, 0xd05)), n, stats)
+	cmdCorrB(hx.NewRng(mixSeed(seed, 0xb05)), n, stats)
 	r := hx.NewRng(mixSeed(seed, 0xc05c05))
 	for i := 0; i < n; i++ {
 		sg := genSeg(r, i%3 == 0)
@@ -1570,6 +1981,7 @@ func cmdCorr(seed uint64, n int, exh int) {
 		for k := range sg.Frags {
 			emitH(fmt.Sprintf("h%d.%d", i, k), sg, sr, k, stats)
 		}
+		emitG(fmt.Sprintf("g%d", i), sg, sr, stats)
 	}
 	ne := 0
 	genExh(exh, func(sg *Seg) {
